@@ -545,6 +545,62 @@ impl World {
     }
 
     /// the real write path of the switches: the factory owns pools and vaults
+    /// one config write: all three switches (`Full`), only the named ones (`Partial`; a pool's
+    /// `FeatureToggle` struct is completed with the values `cur` the caller believes to be current),
+    /// or none at all (`Touch`: the update only re-states the fee collector address)
+    pub fn write_cfg(&mut self, wr: &CfgWrite, cur: [bool; 3]) -> Result<(), String> {
+        let (toggle, opts): (Option<[bool; 3]>, [Option<bool>; 3]) = match wr {
+            CfgWrite::Full(f) => (Some(*f), [Some(f[0]), Some(f[1]), Some(f[2])]),
+            CfgWrite::Partial(o) => (Some([o[0].unwrap_or(cur[0]), o[1].unwrap_or(cur[1]), o[2].unwrap_or(cur[2])]), *o),
+            CfgWrite::Touch => (None, [None, None, None]),
+        };
+        let col = if matches!(wr, CfgWrite::Touch) { Some("collector".to_string()) } else { None };
+        let r = match self.kind {
+            Kind::Cp | Kind::Stable => self.app.execute_contract(
+                self.admin.clone(),
+                self.factory.clone(),
+                &pf::ExecuteMsg::UpdatePairConfig {
+                    pair_addr: self.target.to_string(),
+                    owner: None,
+                    fee_collector_addr: col.clone(),
+                    pool_fees: None,
+                    feature_toggle: toggle.map(|f| pair::FeatureToggle { deposits_enabled: f[0], withdrawals_enabled: f[1], swaps_enabled: f[2] }),
+                },
+                &[],
+            ),
+            Kind::Trio => self.app.execute_contract(
+                self.admin.clone(),
+                self.factory.clone(),
+                &pf::ExecuteMsg::UpdateTrioConfig {
+                    trio_addr: self.target.to_string(),
+                    owner: None,
+                    fee_collector_addr: col.clone(),
+                    pool_fees: None,
+                    feature_toggle: toggle.map(|f| trio::FeatureToggle { deposits_enabled: f[0], withdrawals_enabled: f[1], swaps_enabled: f[2] }),
+                    amp_factor: None,
+                },
+                &[],
+            ),
+            Kind::VNative | Kind::VCw20 => self.app.execute_contract(
+                self.admin.clone(),
+                self.factory.clone(),
+                &vf::ExecuteMsg::UpdateVaultConfig {
+                    vault_addr: self.target.to_string(),
+                    params: vault::UpdateConfigParams {
+                        deposit_enabled: opts[0],
+                        withdraw_enabled: opts[1],
+                        flash_loan_enabled: opts[2],
+                        new_owner: None,
+                        new_vault_fees: None,
+                        new_fee_collector_addr: col.clone(),
+                    },
+                },
+                &[],
+            ),
+        };
+        r.map(|_| ()).map_err(|e| format!("{e:#}"))
+    }
+
     pub fn set_flags(&mut self, f: [bool; 3]) -> Result<(), String> {
         let r = match self.kind {
             Kind::Cp | Kind::Stable => self.app.execute_contract(
@@ -980,11 +1036,21 @@ impl PathRun {
     }
 }
 
-pub fn run_on_fresh(kind: Kind, funded: bool, sets: &[[bool; 3]], path: &str, amt: u128) -> Outcome<PathRun> {
+/// how a config write of the case's history was made
+#[derive(Clone, Debug, PartialEq)]
+pub enum CfgWrite {
+    Full([bool; 3]),
+    Partial([Option<bool>; 3]),
+    Touch,
+}
+
+pub fn run_on_fresh(kind: Kind, funded: bool, sets: &[[bool; 3]], writes: &[CfgWrite], path: &str, amt: u128) -> Outcome<PathRun> {
     guarded(|| -> Result<PathRun, String> {
         let mut w = World::build(kind, funded);
-        for f in sets {
-            w.set_flags(*f)?;
+        let mut cur = [true, true, true];
+        for (f, wr) in sets.iter().zip(writes.iter()) {
+            w.write_cfg(wr, cur)?;
+            cur = *f;
         }
         w.prepare(path, amt);
         let before = w.snapshot();
@@ -1006,6 +1072,8 @@ pub struct Toggles {
     funded: bool,
     amt: u128,
     sets: Vec<[bool; 3]>,
+    /// how each entry of `sets` was written
+    writes: Vec<CfgWrite>,
     world: Option<World>,
     plan: Vec<String>,
     twin: BTreeMap<(Kind, bool, u128, String), (&'static str, Snapshot)>,
@@ -1021,6 +1089,7 @@ impl Toggles {
             funded: false,
             amt: 100_000,
             sets: vec![],
+            writes: vec![],
             world: None,
             plan: vec![],
             twin: BTreeMap::new(),
@@ -1032,7 +1101,7 @@ impl Toggles {
         if let Some(v) = self.twin.get(&key) {
             return v.clone();
         }
-        let v = match run_on_fresh(self.kind, self.funded, &[], path, self.amt) {
+        let v = match run_on_fresh(self.kind, self.funded, &[], &[], path, self.amt) {
             Outcome::Ok(r) => (r.outcome, r.after_mod_cfg),
             _ => ("broken", vec![]),
         };
@@ -1072,6 +1141,7 @@ impl Engine for Toggles {
                 self.funded = funded != 0;
                 self.amt = amt;
                 self.sets.clear();
+                self.writes.clear();
                 let (k, fd) = (self.kind, self.funded);
                 match guarded(|| -> Result<World, String> { Ok(World::build(k, fd)) }) {
                     Outcome::Ok(w) => {
@@ -1112,6 +1182,46 @@ impl Engine for Toggles {
                 });
                 if r.is_ok() {
                     self.sets.push(f);
+                    self.writes.push(CfgWrite::Full(f));
+                }
+                format!("{} {}", if r.is_ok() { "ok" } else { "err" }, Self::flags_str(got))
+            }
+            Some("setp") | Some("touch") => {
+                let cur = self.sets.last().copied().unwrap_or([true, true, true]);
+                let wr = if ws[0] == "touch" {
+                    if ws.len() != 1 {
+                        return "bad-op".into();
+                    }
+                    CfgWrite::Touch
+                } else {
+                    if ws.len() != 4 {
+                        return "bad-op".into();
+                    }
+                    let mut o = [None; 3];
+                    for k in 0..3 {
+                        o[k] = match ws[k + 1] {
+                            "-" => None,
+                            "0" => Some(false),
+                            "1" => Some(true),
+                            _ => return "bad-op".into(),
+                        };
+                    }
+                    CfgWrite::Partial(o)
+                };
+                let want = match &wr {
+                    CfgWrite::Partial(o) => [o[0].unwrap_or(cur[0]), o[1].unwrap_or(cur[1]), o[2].unwrap_or(cur[2])],
+                    _ => cur,
+                };
+                let Some(w) = self.world.as_mut() else { return "bad-op".into() };
+                let r = w.write_cfg(&wr, cur);
+                let got = w.flags();
+                // ---- C17: a config update changes exactly the switches it names
+                mon.check("C17", "partial_update_changes_only_named_switches", r.is_ok() && got == want, || {
+                    format!("{:?} on {} with switches {:?}: result {:?}, Config reports {:?}, expected {:?}", wr, self.kind.name(), cur, r, got, want)
+                });
+                if r.is_ok() {
+                    self.sets.push(want);
+                    self.writes.push(wr);
                 }
                 format!("{} {}", if r.is_ok() { "ok" } else { "err" }, Self::flags_str(got))
             }
@@ -1136,7 +1246,7 @@ impl Engine for Toggles {
                         what
                     )
                 };
-                match run_on_fresh(self.kind, self.funded, &self.sets, path, self.amt) {
+                match run_on_fresh(self.kind, self.funded, &self.sets, &self.writes, path, self.amt) {
                     Outcome::Ok(r) => {
                         let disabled = named.map(|i| !cur[i]).unwrap_or(false);
                         if disabled {
@@ -1209,11 +1319,29 @@ impl Engine for Toggles {
             self.funded = funded != 0;
             self.amt = amt;
             let f = [flags & 1 != 0, flags & 2 != 0, flags & 4 != 0];
-            let mut plan = vec![format!("set {} {} {}", f[0] as u8, f[1] as u8, f[2] as u8)];
+            // round 0 writes all three switches at once; later rounds name only the switches they turn
+            // off (and, afterwards, only those they turn back on) and add an update naming no switch
+            let mut plan = if round == 0 {
+                vec![format!("set {} {} {}", f[0] as u8, f[1] as u8, f[2] as u8)]
+            } else {
+                let o = |b: bool| if b { "-" } else { "0" };
+                let mut v = vec![format!("setp {} {} {}", o(f[0]), o(f[1]), o(f[2]))];
+                if round % 2 == 1 {
+                    v.push("touch".into());
+                }
+                v
+            };
             for (p, _) in paths_of(self.variant) {
                 plan.push(format!("path {p}"));
             }
-            plan.push("set 1 1 1".into());
+            if round == 0 {
+                plan.push("set 1 1 1".into());
+            } else {
+                let o = |b: bool| if b { "-" } else { "1" };
+                plan.push(format!("setp {} {} {}", o(f[0]), o(f[1]), o(f[2])));
+                plan.push("touch".into());
+            }
+
             for (p, _) in paths_of(self.variant) {
                 plan.push(format!("path {p}"));
             }
